@@ -60,7 +60,7 @@ func tyTerm(t *Table, n *TNode) string {
 	case KSlice:
 		return core.App("TySlice", tyTerm(t, n.Elem))
 	case KMap:
-		return core.App("TyMap", tyTerm(t, n.Elem))
+		return core.App("TyMap", "TyStr", tyTerm(t, n.Elem))
 	case KArray:
 		return core.App("TyArray", tyTerm(t, n.Elem))
 	}
@@ -158,7 +158,7 @@ func tyOf(t *Table, rt reflect.Type, path, ctors string, out *[][2]string, stack
 	case reflect.Slice:
 		return core.App("TySlice", tyOf(t, rt.Elem(), path+"{L}", ctors+"L", out, stack))
 	case reflect.Map:
-		return core.App("TyMap", tyOf(t, rt.Elem(), path+"{M}", ctors+"M", out, stack))
+		return core.App("TyMap", tyOf(t, rt.Key(), path+"{K}", ctors+"K", out, stack), tyOf(t, rt.Elem(), path+"{M}", ctors+"M", out, stack))
 	case reflect.Array:
 		return core.App("TyArray", tyOf(t, rt.Elem(), path+"{A}", ctors+"A", out, stack))
 	case reflect.Struct:
@@ -288,6 +288,26 @@ type RegBelowSlice struct { // not followed by the walk: modelled as is
 }
 type RegOK struct{ Host string }
 
+// containers around a struct with an untagged secret-looking field (X7), and the tagged controls
+type XHost struct{ Password string }
+type XHostT struct {
+	Password string `coerce:"secure"`
+}
+type RegSlice struct{ Hosts []XHost }
+type RegSlicePtr struct{ Hosts []*XHost }
+type RegMapElem struct{ Hosts map[string]XHost }
+type RegArray struct{ Hosts [2]XHost }
+type RegMapKey struct{ Hosts map[XHost]bool }
+type RegSliceSlice struct{ Hosts [][]XHost }
+type RegContainersTagged struct {
+	A []XHostT
+	B []*XHostT
+	C map[string]XHostT
+	D [2]XHostT
+	E map[XHostT]bool
+	F [][]XHostT
+}
+
 func regStatic(w *core.Writer) {
 	types := []struct {
 		name string
@@ -300,6 +320,10 @@ func regStatic(w *core.Writer) {
 		{"RegUnexpLeafTagged", RegUnexpLeafTagged{}}, {"RegExportedEmb", RegExportedEmb{}}, {"RegNamed", &RegNamed{}},
 		{"RegBelowSlice", RegBelowSlice{}}, {"MReq", MReq{}}, {"*PReq", &PReq{}}, {"Wrap", Wrap{}}, {"*WrapP", &WrapP{}}, {"*Carrier", &Carrier{}},
 		{"TReq", TReq{}}, {"SReq", SReq{}}, {"*EReq", &EReq{}},
+		{"RegSlice", RegSlice{}}, {"*RegSlicePtr", &RegSlicePtr{}}, {"RegMapElem", RegMapElem{}}, {"RegArray", RegArray{}}, {"RegMapKey", RegMapKey{}},
+		{"*RegSliceSlice", &RegSliceSlice{}}, {"[]XHost", []XHost{}}, {"map[string]*XHost", map[string]*XHost{}}, {"[1]XHost", [1]XHost{}},
+		{"RegContainersTagged", RegContainersTagged{}}, {"[]XHostT", []XHostT{}},
+		{"EmbTagged", EmbTagged{}}, {"*EmbDeep", &EmbDeep{}}, {"EmbNil", EmbNil{}}, {"EmbIgn", EmbIgn{}}, {"*TagHolder", &TagHolder{}},
 		{"*RHost", &RHost{}}, {"RLink", RLink{}}, {"RHostB", RHostB{}}, {"*RNode", &RNode{}}, {"RTree", RTree{}}, {"*RA", &RA{}}, {"RB", RB{}},
 		{"*RI", &RI{}}, {"RJ", RJ{}}, {"*RBadSelf", &RBadSelf{}}, {"RBadOuter", RBadOuter{}}, {"*RBadInner", &RBadInner{}}, {"EmbReq", EmbReq{}}, {"*EmbHolder", &EmbHolder{}}, {"*StaticReq", &StaticReq{}},
 	}
